@@ -290,7 +290,9 @@ CORPUS = [
     ('1.0', "1 + (2 * 3)"), ('1.0', "(1 - 2) - 3"), ('1.0', "1 - (2 - 3)"), ('1.0', "4 div (2 div 2)"), ('1.0', "-(1 + 2)"),
     ('1.0', "(a or b) and c"), ('1.0', "a or (b and c)"), ('1.0', "(a | b)/text()"), ('1.0', "div"), ('1.0', "mod/and"),
     ('1.0', "or or or"), ('1.0', "a div div"), ('1.0', "* * *"), ('1.0', "a[1 + 1]"), ('1.0', "a[(1)]"),
-    ('1.0', "string-length('abc') + 1"), ('1.0', "a/b | a/@n"), ('1.0', "id('i')/a"), ('1.0', "lang('en')"),
+    ('1.0', "string-length('abc') + 1"), ('1.0', "a/b | a/@n"), ('1.0', "lang('en')"),
+    ('1.0', "div-b"), ('1.0', "a/or-c"), ('1.0', "mod.x | and-more"), ('1.0', "a[or-c]/div-b"), ('2.0', "if-x"), ('2.0', "for.y | some-z"),
+    ('2.0', "a/instance-of | to-x"), ('2.0', "union-a union cast-b"), ('3.0', "let-x ! return-y"), ('2.0', "eq-a eq is-b"),
     ('2.0', "()"), ('2.0', "(1, 2)"), ('2.0', "(1, (2, 3))"), ('2.0', "((1, 2), 3)"), ('2.0', "1, 2"), ('2.0', "1e3"),
     ('2.0', "1.5E-3"), ('2.0', "1E0"), ('2.0', "1.0e10"), ('2.0', "xs:double('NaN')"), ('2.0', "xs:double('INF')"),
     ('2.0', "-0e0"), ('2.0', "1 to 3"), ('2.0', "(1 to 3)[2]"), ('2.0', "1 eq 1"), ('2.0', "1 ne 2"), ('2.0', "1 lt 2"),
@@ -561,8 +563,8 @@ def check_grammar(case, out):
                        'expected_tree': res.get('want_tree'),
                        'minimal': {'expression': sres['flat'], 'expected': sres['expected'], 'got': sres.get('got'),
                                    'expected_tree': sres.get('want_tree')}})
-    # the source oracle on what was parsed
-    for name in ('rf', 'rp'):
+    # the source oracle on what was parsed (not on a tree that is already known to be wrong)
+    for name in ('rf', 'rp') if res['cat'] is None else ():
         r = res.get(name)
         if r is not None and r[0] == 'ok' and r[2] == 'full':
             check_source_token(v, res['flat'] if name == 'rf' else res['paren'], r[1], out, values=(name == 'rf'))
@@ -715,6 +717,25 @@ def check_source_token(v, text, tok, out, values=True):
                      {'version': v, 'expression': text, 'source': src, 'value': v1, 'value_of_source': v2})
 
 
+KEYWORDS = ('instance', 'of', 'treat', 'as', 'cast', 'castable', 'for', 'let', 'some', 'every', 'if', 'then', 'else', 'in',
+            'return', 'satisfies', 'to', 'union', 'intersect', 'except', 'map', 'array', 'function')
+
+
+def signature(v, text):
+    """operators / keywords / called names of an expression, in order, without operands"""
+    lx = G.lex(v, text)
+    if not lx:
+        return 'unlexed'
+    sig = []
+    for i, (k, t) in enumerate(lx):
+        if k == 'sym' or (k == 'name' and (t in KEYWORDS or (i + 1 < len(lx) and lx[i + 1][1] == '('))):
+            if t not in sig:
+                sig.append(t)
+        elif k == 'name' and ('-' in t or '.' in t) and 'hyphenated-name' not in sig:
+            sig.append('hyphenated-name')
+    return '~'.join(sig[:5]) or 'operands-only'
+
+
 def check_source(case, out):
     v, e = case['v'], case['e']
     r = eparse(v, e)
@@ -722,6 +743,10 @@ def check_source(case, out):
     if r[0] != 'ok' or r[2] != 'full':
         out.nontrivial = False
         out.dim('source_unparsed_input', r[0] if r[0] != 'ok' else r[2])
+        if r[0] in ('syntax', 'exc') and case.get('valid'):
+            # every expression of the hand-written corpus is a valid instance of the grammar of its version
+            out.fail('C04/corpus-rejected/%s/%s' % (vclass(v), signature(v, e)),
+                     {'version': v, 'expression': e, 'expected': 'parses (valid XPath %s)' % v, 'got': [str(x) for x in r[:3]]})
         return
     check_source_token(v, e, r[1], out)
     s = call(lambda: r[1].source)
@@ -818,6 +843,8 @@ def adjacency(ka, a, kb, b, skind):
         return '%s~%s' % (tok_class(ka, a), tok_class(kb, b))
     if a == ':' or b == ':':
         return 'colon'
+    if a == '?' or b == '?':
+        return 'question-mark'
     if ka == 'name' and b in ('(', '::', '{', '#'):
         return 'name~' + b
     if a == '$' or a == '::' or a == '@':
@@ -921,7 +948,10 @@ def check_layout(case, out):
         elif st == 'diff' and k == 'c-plain':
             k = 'comment'
         if st == 'diff':
-            adj = adjacency(lk[i], toks[i], lk[i + 1], toks[i + 1], k)
+            adj = adjacency(lk[i], toks[i], lk[i + 1], toks[i + 1], 'c-plain' if k == 'comment' else k)
+            if k not in ('none', 'space') and adj != 'any' and \
+                    layout_compare(v, ['1', '+', "'x'"], ['(: c :)' if k == 'comment' else seps[i], ' '])[0] == 'diff':
+                adj = 'any'            # the separator breaks even the neutral expression 1 + 'x'
             det['separator'] = seps[i]
             det['between'] = [toks[i], toks[i + 1]]
             det['version'] = v
@@ -1076,9 +1106,92 @@ def shrink(kind, case):
                 yield {'v': case['v'], 'toks': case['toks'], 'seps': seps, 'text': case.get('text')}
 
 
+# witnesses of the mechanisms found on the pinned tree plus boundary shapes: always executed, so that the
+# set of keys does not depend on what the random generators happen to produce
+DIRECTED_GRAMMAR = [
+    ('1.0', [['a', 'a', 'step'], ['b', '='], ['a', '1', 'prim'], ['b', '='], ['a', '1', 'prim']]),
+    ('1.0', [['a', 'a', 'step'], ['b', '<'], ['a', '1', 'prim'], ['b', '='], ['a', '1', 'prim']]),
+    ('1.0', [['a', 'a', 'step'], ['b', '='], ['a', '1', 'prim'], ['b', '<'], ['a', '1', 'prim']]),
+    ('1.0', [['a', "id('i')", 'prim'], ['b', '/'], ['a', 'a', 'step']]),
+    ('1.0', [['a', '$x', 'prim'], ['b', '/'], ['a', 'a', 'step']]),
+    ('1.0', [['u', '-'], ['a', 'a', 'step'], ['b', '|'], ['a', 'b', 'step']]),
+    ('1.0', [['a', 'a', 'step'], ['b', '|'], ['u', '-'], ['a', 'b', 'step']]),
+    ('1.0', [['a', 'node()', 'step'], ['b', '+'], ['a', '1', 'prim']]),
+    ('1.0', [['a', 'node()', 'step'], ['b', '*'], ['a', 'a', 'step']]),
+    ('1.0', [['a', 'text()', 'step'], ['b', '*'], ['a', '2', 'prim']]),
+    ('2.0', [['a', 'node()', 'step'], ['b', '+'], ['a', '1', 'prim']]),
+    ('3.1', [['a', 'node()', 'step'], ['b', '*'], ['u', '-'], ['a', '1', 'prim']]),
+    ('2.0', [['a', '1', 'prim'], ['b', '='], ['a', '1', 'prim'], ['b', 'eq'], ['a', 'a', 'step']]),
+    ('2.0', [['a', 'a', 'step'], ['b', '<<'], ['a', 'b', 'step'], ['b', '<<'], ['a', 'c', 'step']]),
+    ('2.0', [['a', 'a', 'step'], ['b', 'is'], ['a', 'b', 'step'], ['b', 'is'], ['a', 'c', 'step']]),
+    ('2.0', [['a', '1', 'prim'], ['b', 'to'], ['a', '2', 'prim'], ['b', 'to'], ['a', '3', 'prim']]),
+    ('2.0', [['a', 'a', 'step'], ['b', 'or'], ['h', 'every $v in 1 to 3 satisfies'], ['a', 'a', 'step']]),
+    ('2.0', [['a', '1', 'prim'], ['b', '+'], ['h', 'if (a) then 1 else'], ['a', '2', 'prim']]),
+    ('2.0', [['h', 'if (a) then 1 else'], ['a', '2', 'prim'], ['b', '+'], ['a', '1', 'prim'], ['b', ','], ['a', '3', 'prim']]),
+    ('2.0', [['a', 'a', 'step'], ['t', 'instance of', 'xs:decimal'], ['t', 'instance of', 'item()+']]),
+    ('2.0', [['a', 'a', 'step'], ['t', 'instance of', 'xs:decimal'], ['t', 'treat as', 'item()+']]),
+    ('2.0', [['a', "'1'", 'prim'], ['t', 'cast as', 'xs:integer'], ['t', 'cast as', 'xs:string']]),
+    ('2.0', [['a', '1', 'prim'], ['t', 'treat as', 'xs:integer'], ['t', 'instance of', 'xs:integer']]),
+    ('3.0', [['a', '1', 'prim'], ['t', 'instance of', 'node()*'], ['b', '!'], ['a', '1', 'prim']]),
+    ('3.1', [['a', '1', 'prim'], ['t', 'instance of', 'xs:double+'], ['w', 'string', '()']]),
+    ('2.0', [['a', '1', 'prim'], ['t', 'instance of', 'item()+'], ['b', '+'], ['a', '1', 'prim']]),
+    ('2.0', [['a', 'a', 'step'], ['t', 'instance of', 'node()*'], ['b', '*'], ['a', '1', 'prim']]),
+    ('2.0', [['a', '1', 'prim'], ['t', 'instance of', 'node()'], ['b', '*'], ['a', '*', 'step']]),
+    ('2.0', [['a', '1', 'prim'], ['t', 'instance of', 'xs:integer'], ['b', '+'], ['a', '2', 'prim']]),
+    ('2.0', [['a', '1', 'prim'], ['t', 'instance of', 'xs:integer*'], ['b', '*'], ['a', '2', 'prim']]),
+    ('3.0', [['a', '1', 'prim'], ['b', '!'], ['u', '-'], ['a', '1', 'prim']]),
+    ('2.0', [['a', 'a', 'step'], ['b', '/'], ['u', '-'], ['a', 'b', 'step']]),
+    ('3.1', [['a', '$m', 'prim'], ['p', '?k', 'lookup'], ['b', '/'], ['a', 'a', 'step']]),
+    ('3.1', [['a', '(a)', 'prim'], ['p', '?*', 'lookup'], ['b', '/'], ['a', 'a', 'step']]),
+    ('3.1', [['u', '-'], ['a', 'a', 'step'], ['w', 'abs', '()'], ['t', 'cast as', 'xs:integer']]),
+    ('3.1', [['a', 'array{1, 2}', 'prim'], ['b', '/'], ['a', 'a', 'step']]),
+    ('3.1', [['a', 'map{1: 2}', 'prim'], ['b', '//'], ['a', 'a', 'step']]),
+    ('3.1', [['a', '[1, 2]', 'prim'], ['b', '/'], ['a', 'a', 'step']]),
+    ('3.0', [['a', 'abs#1', 'prim'], ['b', '/'], ['a', 'a', 'step']]),
+    ('3.0', [['a', '$f', 'prim'], ['p', '(1)', 'call'], ['b', '/'], ['a', 'a', 'step']]),
+    ('2.0', [['a', '1', 'prim'], ['b', '/'], ['a', 'a', 'step']]),
+    ('2.0', [['a', 'a', 'step'], ['b', '/'], ['a', '1', 'prim']]),
+    ('2.0', [['a', 'count(a)', 'prim'], ['b', '/'], ['a', 'a', 'step']]),
+    ('3.1', [['u', '-'], ['a', 'a', 'step'], ['b', '!'], ['a', 'b', 'step'], ['b', '/'], ['a', 'c', 'step'], ['p', '[1]', 'pred']]),
+]
+DIRECTED_LAYOUT = [
+    # (version, text, {index of the gap: separator})
+    ('3.1', 'abs(?)', {1: '(: c :)'}), ('3.1', "concat('a', ?)", {3: ' (: c :) '}),
+    ('3.1', 'map{1:2}', {2: ' (: c :)'}), ('3.1', 'map{1:2}', {3: '(: c :) '}), ('3.1', 'map{1:2}', {1: '(: c :) '}),
+    ('3.0', 'abs#1 and true()', {0: '(: a :)', 4: '(: b :)'}), ('2.0', 'a + abs(1)', {0: ' (: x :) ', 2: '(: y :)'}),
+    ('2.0', "1 + 'abc'", {0: " (: it's :) "}), ('2.0', '1 + "abc"', {0: ' (: say "x :) '}), ('2.0', '1 + 2', {0: " (: ' :) "}),
+    ('2.0', 'abs(1)', {0: ' (: a\nb :) '}), ('2.0', 'abs(1)', {0: '(:\n:)'}), ('2.0', 'child::a', {0: ' (: a\nb :) '}),
+    ('2.0', 'abs(1)', {0: '(: a :)(: b :)'}), ('2.0', 'abs(1)', {0: '(: a (: b :) c :)'}), ('2.0', 'abs(1)', {0: '(::)'}),
+    ('2.0', 'abs(1)', {0: '\n'}), ('1.0', 'count(a)', {0: '\n'}), ('1.0', 'child::a', {0: '\n', 1: '\t'}),
+    ('2.0', 'child::a', {0: '(: a :)(: b :)', 1: '(::)'}), ('2.0', 'if (a) then 1 else 2', {0: '(: c :)'}),
+    ('2.0', 'for $x in a return $x', {0: '', 1: '(: c :)'}), ('2.0', 'a or(b)', {1: ''}), ('2.0', '1 div(2)', {1: ''}),
+    ('2.0', '(a)div 2', {2: ''}), ('2.0', 'text()', {0: '(: c :)'}), ('2.0', 'attribute::n', {0: ' (: c :) '}),
+    ('2.0', 'attribute(n)', {0: ' (: c :) '}), ('3.1', 'map{1:2}', {0: ' (: c :) '}), ('3.1', 'array{1}', {0: ' (: c :) '}),
+    ('3.0', 'abs#1', {0: ' (: c :) ', 1: '(: d :)'}), ('2.0', '$x', {0: ' (: c :) '}), ('2.0', '@n', {0: ' (: c :) '}),
+    ('2.0', '1 instance of xs:integer?', {3: ' (: c :) '}), ('2.0', 'a[1]', {0: '(: c :)', 1: '(: d :)', 2: '(: e :)'}),
+]
+
+
+def directed_layouts():
+    for v, text, gaps in DIRECTED_LAYOUT:
+        lx = G.lex(v, text)
+        if not lx:
+            continue
+        toks = [t for _, t in lx]
+        seps = [' '] * (len(toks) - 1)
+        for i, s in gaps.items():
+            if i < len(seps):
+                seps[i] = s
+        yield {'v': v, 'toks': toks, 'seps': seps, 'text': text}
+
+
 def run(h):
     r = h.rng
     texts = {v: [] for v in G.VERSIONS}
+    for v, items in DIRECTED_GRAMMAR:
+        h.case('grammar', {'v': v, 'items': items})
+    for lay in directed_layouts():
+        h.case('layout', lay)
     # 1. all ordered pairs of operators, plain operands then decorated operands
     for v in G.VERSIONS:
         ops = op_items(v)
@@ -1099,7 +1212,7 @@ def run(h):
     # 3. source round trip of the hand-written corpus
     for v in G.VERSIONS:
         for e in corpus_for(v):
-            h.case('source', {'v': v, 'e': e})
+            h.case('source', {'v': v, 'e': e, 'valid': True})
     # 4. layout variants
     for v in G.VERSIONS:
         pool = corpus_for(v) + texts[v]
